@@ -1,9 +1,23 @@
-import DyntplV.Refine.Hist
-/-! History discipline through `writeTree / writeSeq / writeNode / switchNode` and the loops. -/
-namespace DyntplV
+import DyntplV.Impl
+/-! After a failed write nothing more is written: once the writer is dead (its fault position was reached)
+    every later Write call fails as well, so the accepted output is frozen — through `writeTree / writeSeq /
+    writeNode / switchNode` and the loops. (Same shape as HistInterp: a preorder between the state before and
+    after a piece; here on the writer.) -/
+namespace DyntplV.Frozen
+open DyntplV
 
-def Mono (F : St → Res) : Prop := ∀ s, CMono s.c (F s).st.c
-def MonoL (F : St → LoopRes) : Prop := ∀ s, CMono s.c (F s).st.c
+/-- The writer's fault position has been reached: this and every later Write call fails. -/
+def Dead (w : Writer) : Prop := ∃ k, w.failAt = some k ∧ k ≤ w.writes + 1
+
+/-- `w'` comes after `w`: if `w` was dead, `w'` is dead too and holds the same accepted output. -/
+def Frz (w w' : Writer) : Prop := Dead w → Dead w' ∧ w'.out = w.out
+
+theorem Frz.refl (w : Writer) : Frz w w := fun h => ⟨h, rfl⟩
+theorem Frz.trans {a b c : Writer} (h1 : Frz a b) (h2 : Frz b c) : Frz a c := by
+  intro h; obtain ⟨hb, e1⟩ := h1 h; obtain ⟨hc, e2⟩ := h2 hb; exact ⟨hc, e2.trans e1⟩
+
+def Mono (F : St → Res) : Prop := ∀ s, Frz s.w (F s).st.w
+def MonoL (F : St → LoopRes) : Prop := ∀ s, Frz s.w (F s).st.w
 
 theorem Mono.andThen {F K : St → Res} (hF : Mono F) (hK : Mono K) : Mono (fun s => (F s).andThen K) := by
   intro s
@@ -12,47 +26,51 @@ theorem Mono.andThen {F K : St → Res} (hF : Mono F) (hK : Mono K) : Mono (fun 
   | some e => simp only [h]; exact hF s
   | none => simp only [h]; exact (hF s).trans (hK _)
 
-theorem write_mono (p : Bytes) (s : St) : CMono s.c (s.write p).st.c := by
-  unfold St.write
-  cases hw : s.w.write p with
-  | mk w b => cases b <;> exact CMono.refl _
+theorem write_mono (p : Bytes) (s : St) : Frz s.w (s.write p).st.w := by
+  intro hd
+  obtain ⟨k, hk, hle⟩ := hd
+  unfold St.write Writer.write
+  simp only [hk]
+  have : k ≤ s.w.writes + 1 := hle
+  simp only [this, if_true]
+  refine ⟨⟨k, ?_, ?_⟩, rfl⟩
+  · show some k = some k; rfl
+  · show k ≤ s.w.writes + 1 + 1; omega
 
-theorem clrErrIf_mono (b : Bool) (s : St) : CMono s.c (clrErrIf b s).c := by
-  unfold clrErrIf; split
-  · exact CMono.of_eq rfl rfl rfl
-  · exact CMono.refl _
+theorem clrErrIf_mono (b : Bool) (s : St) : Frz s.w (clrErrIf b s).w := by
+  unfold clrErrIf; split <;> exact Frz.refl _
 
-theorem sepWrite_mono (n : Nat) (sep : Bytes) (s : St) : CMono s.c (sepWrite n sep s).st.c := by
+theorem sepWrite_mono (n : Nat) (sep : Bytes) (s : St) : Frz s.w (sepWrite n sep s).st.w := by
   unfold sepWrite; split
   · exact write_mono _ s
-  · exact CMono.refl _
+  · exact Frz.refl _
 
-theorem tplWrites_mono (pre t suf : Bytes) (noesc : Bool) (s : St) : CMono s.c (tplWrites s pre t suf noesc).st.c := by
+theorem tplWrites_mono (pre t suf : Bytes) (noesc : Bool) (s : St) : Frz s.w (tplWrites s pre t suf noesc).st.w := by
   have key : Mono (fun s' : St =>
       ((if pre.isEmpty then ok s' else s'.write (regionEscape s.c pre)).andThen fun s1 =>
        (s1.write (if noesc then t else regionEscape s.c t)).andThen fun s2 =>
        if suf.isEmpty then ok s2 else s2.write (regionEscape s.c suf))) := by
     apply Mono.andThen
-    · intro s'; show CMono s'.c (if pre.isEmpty then ok s' else s'.write (regionEscape s.c pre)).st.c
+    · intro s'; show Frz s'.w (if pre.isEmpty then ok s' else s'.write (regionEscape s.c pre)).st.w
       split
-      · exact CMono.refl _
+      · exact Frz.refl _
       · exact write_mono _ s'
     · apply Mono.andThen
       · intro s'; exact write_mono _ s'
-      · intro s'; show CMono s'.c (if suf.isEmpty then ok s' else s'.write (regionEscape s.c suf)).st.c
+      · intro s'; show Frz s'.w (if suf.isEmpty then ok s' else s'.write (regionEscape s.c suf)).st.w
         split
-        · exact CMono.refl _
+        · exact Frz.refl _
         · exact write_mono _ s'
   exact key s
 
-theorem iterAfterBody_mono (rb : Res) : CMono rb.st.c (iterAfterBody rb).st.c := by
+theorem iterAfterBody_mono (rb : Res) : Frz rb.st.w (iterAfterBody rb).st.w := by
   unfold iterAfterBody
   cases rb.err with
-  | none => simp only; split <;> exact CMono.of_eq rfl rfl rfl
+  | none => simp only; split <;> exact Frz.refl _
   | some e =>
     by_cases hs : isSentinel e = true
-    · simp only [hs, if_true]; split <;> exact CMono.of_eq rfl rfl rfl
-    · simp only [hs, Bool.false_eq_true, if_false]; exact CMono.of_eq rfl rfl rfl
+    · simp only [hs, if_true]; split <;> exact Frz.refl _
+    · simp only [hs, Bool.false_eq_true, if_false]; exact Frz.refl _
 
 theorem IterOut.st_abort (s : St) : (IterOut.abort s).st = s := rfl
 theorem IterOut.st_stop (s : St) : (IterOut.stop s).st = s := rfl
@@ -62,18 +80,18 @@ theorem rloopLoop_mono (run : St → Res) (hrun : Mono run) (ls : RLoopSpec) :
     ∀ (items : List (Bytes × Val × InsKind)) (n : Nat), MonoL (fun s => rloopLoop run ls items n s) := by
   intro items
   induction items with
-  | nil => intro n s; exact CMono.refl _
+  | nil => intro n s; exact Frz.refl _
   | cons it rest ih =>
     intro n s
     obtain ⟨kk, v, ik⟩ := it
-    show CMono s.c (rloopLoop run ls ((kk, v, ik) :: rest) n s).st.c
+    show Frz s.w (rloopLoop run ls ((kk, v, ik) :: rest) n s).st.w
     rw [rloopLoop]
-    have h0 : CMono s.c (rIterStart ls kk v ik s).c := by
-      unfold rIterStart; split <;> exact CMono.of_eq rfl rfl rfl
+    have h0 : Frz s.w (rIterStart ls kk v ik s).w := by
+      unfold rIterStart; split <;> exact Frz.refl _
     have h1 := h0.trans (sepWrite_mono n ls.sep (rIterStart ls kk v ik s))
     generalize sepWrite n ls.sep (rIterStart ls kk v ik s) = rs at h1
     cases rs.err with
-    | some e => exact h1.trans (CMono.of_eq rfl rfl rfl)
+    | some e => exact h1.trans (Frz.refl _)
     | none =>
       simp only
       have h2 := (h1.trans (hrun rs.st)).trans (iterAfterBody_mono (run rs.st))
@@ -86,47 +104,47 @@ theorem cloopLoop_mono (run : St → Res) (hrun : Mono run) (ls : CLoopSpec) :
     ∀ (f : Nat) (v lim : Int) (n : Nat), MonoL (fun s => cloopLoop run ls f v lim n s) := by
   intro f
   induction f with
-  | zero => intro v lim n s; exact CMono.of_eq rfl rfl rfl
+  | zero => intro v lim n s; exact Frz.refl _
   | succ f ih =>
     intro v lim n s
-    show CMono s.c (cloopLoop run ls (f+1) v lim n s).st.c
+    show Frz s.w (cloopLoop run ls (f+1) v lim n s).st.w
     rw [cloopLoop]
     cases loopAllows ls.condOp v lim with
-    | none => exact CMono.of_eq rfl rfl rfl
+    | none => exact Frz.refl _
     | some b =>
       cases b with
-      | false => exact CMono.of_eq rfl rfl rfl
+      | false => exact Frz.refl _
       | true =>
         simp only
-        have h0 : CMono s.c ({ s with c := s.c.setStatic ls.cnt (Val.int v) } : St).c := CMono.of_eq rfl rfl rfl
+        have h0 : Frz s.w ({ s with c := s.c.setStatic ls.cnt (Val.int v) } : St).w := Frz.refl _
         have h1 := h0.trans (sepWrite_mono n ls.sep { s with c := s.c.setStatic ls.cnt (Val.int v) })
         generalize sepWrite n ls.sep { s with c := s.c.setStatic ls.cnt (Val.int v) } = rs at h1
         cases rs.err with
-        | some e => exact h1.trans (CMono.of_eq rfl rfl rfl)
+        | some e => exact h1.trans (Frz.refl _)
         | none =>
           simp only
-          have h1' : CMono s.c (clrErrIf (decide (n > 0) && !ls.sep.isEmpty) rs.st).c := h1.trans (clrErrIf_mono _ _)
+          have h1' : Frz s.w (clrErrIf (decide (n > 0) && !ls.sep.isEmpty) rs.st).w := h1.trans (clrErrIf_mono _ _)
           generalize clrErrIf (decide (n > 0) && !ls.sep.isEmpty) rs.st = rs1 at h1'
-          have h2 : CMono s.c (run { rs1 with c := { rs1.c with chQB := true } }).st.c :=
-            (h1'.trans (CMono.of_eq rfl rfl rfl)).trans (hrun { rs1 with c := { rs1.c with chQB := true } })
+          have h2 : Frz s.w (run { rs1 with c := { rs1.c with chQB := true } }).st.w :=
+            (h1'.trans (Frz.refl _)).trans (hrun { rs1 with c := { rs1.c with chQB := true } })
           generalize run { rs1 with c := { rs1.c with chQB := true } } = rb0 at h2
-          have h3 : CMono s.c ({ rb0 with st := { rb0.st with c := { rb0.st.c with chQB := rs1.c.chQB } } } : Res).st.c :=
-            h2.trans (CMono.of_eq rfl rfl rfl)
+          have h3 : Frz s.w ({ rb0 with st := { rb0.st with c := { rb0.st.c with chQB := rs1.c.chQB } } } : Res).st.w :=
+            h2.trans (Frz.refl _)
           have h4 := h3.trans (iterAfterBody_mono { rb0 with st := { rb0.st with c := { rb0.st.c with chQB := rs1.c.chQB } } })
           split
           · cases hio : iterAfterBody { rb0 with st := { rb0.st with c := { rb0.st.c with chQB := rs1.c.chQB } } } with
             | abort st => rw [hio] at h4; exact h4
-            | stop st => rw [hio] at h4; exact h4.trans (CMono.of_eq rfl rfl rfl)
+            | stop st => rw [hio] at h4; exact h4.trans (Frz.refl _)
             | next st =>
               rw [hio] at h4
-              exact (h4.trans (CMono.of_eq rfl rfl rfl)).trans (ih _ _ _ { st with c := st.c.setStatic ls.cnt (Val.int (stepVal ls.cntOp v)) })
+              exact (h4.trans (Frz.refl _)).trans (ih _ _ _ { st with c := st.c.setStatic ls.cnt (Val.int (stepVal ls.cntOp v)) })
           · cases hio : iterAfterBody { rb0 with st := { rb0.st with c := { rb0.st.c with chQB := rs1.c.chQB } } } with
             | abort st => rw [hio] at h4; exact h4
-            | stop st => exact h3.trans (CMono.of_eq rfl rfl rfl)
-            | next st => exact h3.trans (CMono.of_eq rfl rfl rfl)
+            | stop st => exact h3.trans (Frz.refl _)
+            | next st => exact h3.trans (Frz.refl _)
 
 theorem elseSeq_mono : ∀ (runs : List (St → Res)), (∀ r ∈ runs, Mono r) → Mono (elseSeq runs)
-  | [], _ => by intro s; unfold elseSeq; exact CMono.refl _
+  | [], _ => by intro s; unfold elseSeq; exact Frz.refl _
   | r :: rest, h => by
     have hr := h r (List.mem_cons_self)
     have ih := elseSeq_mono rest (fun r' hr' => h r' (List.mem_cons_of_mem _ hr'))
@@ -134,21 +152,21 @@ theorem elseSeq_mono : ∀ (runs : List (St → Res)), (∀ r ∈ runs, Mono r) 
     unfold elseSeq
     cases hx : (r s).err with
     | some e => simp only; exact hr s
-    | none => simp only; exact ((hr s).trans (CMono.of_eq rfl rfl rfl)).trans (ih { (r s).st with c := { (r s).st.c with err := none } })
+    | none => simp only; exact ((hr s).trans (Frz.refl _)).trans (ih { (r s).st with c := { (r s).st.c with err := none } })
 
 theorem elseRun_mono (run : St → Res) (hrun : Mono run) (ne : Bool) : Mono (elseRun run ne) := by
   intro s
   unfold elseRun
   simp only
   cases (run s).err with
-  | some e => exact (hrun s).trans (CMono.of_eq rfl rfl rfl)
+  | some e => exact (hrun s).trans (Frz.refl _)
   | none => simp only; split
-            · exact (hrun s).trans (CMono.of_eq rfl rfl rfl)
+            · exact (hrun s).trans (Frz.refl _)
             · exact hrun s
 
 theorem afterLoop_mono (runElse : Option (St → Res)) (helse : ∀ re, runElse = some re → Mono re)
-    (c0 : Ctx) (r : LoopRes) (sElse : St) (h1 : CMono c0 r.st.c) (h2 : CMono c0 sElse.c) :
-    CMono c0 (afterLoop runElse r sElse).st.c := by
+    (c0 : Writer) (r : LoopRes) (sElse : St) (h1 : Frz c0 r.st.w) (h2 : Frz c0 sElse.w) :
+    Frz c0 (afterLoop runElse r sElse).st.w := by
   unfold afterLoop
   split
   · exact h1
@@ -162,40 +180,40 @@ theorem cloopWith_mono (run : St → Res) (hrun : Mono run) (runElse : Option (S
     (helse : ∀ re, runElse = some re → Mono re) (fuel : Nat) (ls : CLoopSpec) : Mono (cloopWith run runElse fuel ls) := by
   intro s
   unfold cloopWith cloopAfter
-  have hb := loopBounds_mono s.c ls
+  have hb : Frz s.w ({ s with c := (loopBounds s.c ls).1 } : St).w := Frz.refl _
   cases (loopBounds s.c ls).2 with
   | none => exact hb
   | some p =>
     obtain ⟨cnt, lim⟩ := p
     simp only
     have hl := hb.trans (cloopLoop_mono run hrun ls fuel cnt lim 0 { s with c := (loopBounds s.c ls).1 })
-    exact afterLoop_mono runElse helse s.c _ _ hl hl
+    exact afterLoop_mono runElse helse s.w _ _ hl hl
 
 theorem rloopWith_mono (run : St → Res) (hrun : Mono run) (runElse : Option (St → Res))
     (helse : ∀ re, runElse = some re → Mono re) (ls : RLoopSpec) : Mono (rloopWith run runElse ls) := by
   intro s
   unfold rloopWith
   cases splitDots ls.src with
-  | nil => exact CMono.refl _
+  | nil => exact Frz.refl _
   | cons name sub =>
     simp only
     cases getVar s.c.vars name with
-    | none => exact CMono.refl _
+    | none => exact Frz.refl _
     | some vv =>
       simp only
       have hl := rloopLoop_mono run hrun ls (loopItems vv sub) 0 s
-      exact afterLoop_mono runElse helse s.c _ _ hl (hl.trans (CMono.of_eq rfl rfl rfl))
+      exact afterLoop_mono runElse helse s.w _ _ hl (hl.trans (Frz.refl _))
 
 theorem loopNode_mono (loop : St → Res) (hl : Mono loop) : Mono (loopNode loop) := by
   intro s
   unfold loopNode
-  have h := (CMono.of_eq rfl rfl rfl : CMono s.c ({ s with c := { s.c with brkD := 0 } } : St).c).trans (hl { s with c := { s.c with brkD := 0 } })
+  have h := (Frz.refl _ : Frz s.w ({ s with c := { s.c with brkD := 0 } } : St).w).trans (hl { s with c := { s.c with brkD := 0 } })
   simp only
   cases (loop { s with c := { s.c with brkD := 0 } }).err with
-  | some e => exact h.trans (CMono.of_eq rfl rfl rfl)
+  | some e => exact h.trans (Frz.refl _)
   | none =>
     simp only
-    cases (loop { s with c := { s.c with brkD := 0 } }).st.c.err <;> exact h.trans (CMono.of_eq rfl rfl rfl)
+    cases (loop { s with c := { s.c with brkD := 0 } }).st.c.err <;> exact h.trans (Frz.refl _)
 
 theorem interp_mono (reg : Registry) : ∀ f : Nat,
     (∀ nodes, Mono (writeTree reg f nodes)) ∧
@@ -206,21 +224,21 @@ theorem interp_mono (reg : Registry) : ∀ f : Nat,
   induction f with
   | zero =>
     refine ⟨?_, ?_, ?_, ?_⟩
-    · intro nodes s; rw [writeTree]; exact CMono.refl _
-    · intro nodes s; rw [writeSeq]; exact CMono.refl _
-    · intro n s; rw [writeNode]; exact CMono.refl _
-    · intro a al cs s; rw [switchNode]; exact CMono.refl _
+    · intro nodes s; rw [writeTree]; exact Frz.refl _
+    · intro nodes s; rw [writeSeq]; exact Frz.refl _
+    · intro n s; rw [writeNode]; exact Frz.refl _
+    · intro a al cs s; rw [switchNode]; exact Frz.refl _
   | succ f ih =>
     obtain ⟨ihT, ihS, ihN, ihW⟩ := ih
     refine ⟨?_, ?_, ?_, ?_⟩
     · intro nodes s
       rw [writeTree]; simp only
       split
-      · exact (ihS nodes s).trans (CMono.of_eq rfl rfl rfl)
+      · exact (ihS nodes s).trans (Frz.refl _)
       · exact ihS nodes s
     · intro nodes
       cases nodes with
-      | nil => intro s; rw [writeSeq]; exact CMono.refl _
+      | nil => intro s; rw [writeSeq]; exact Frz.refl _
       | cons n rest =>
         intro s; rw [writeSeq]
         exact Mono.andThen (ihN n) (ihS rest) s
@@ -229,20 +247,20 @@ theorem interp_mono (reg : Registry) : ∀ f : Nat,
       | raw b => intro s; rw [writeNode]; exact write_mono _ s
       | tpl path mods noesc pre suf =>
         intro s; rw [writeNode]
-        have h := evalPrint_mono s.c path mods
-        generalize evalPrint s.c path mods = ep at h
+        have h : Frz s.w s.w := Frz.refl _
+        generalize evalPrint s.c path mods = ep
         obtain ⟨c2, o⟩ := ep
         cases o with
         | stop e => exact h
         | text t => exact h.trans (tplWrites_mono pre t suf noesc { s with c := c2 })
-      | ctx cs => intro s; rw [writeNode]; exact ctxNode_mono s.c cs
-      | counter cs => intro s; rw [writeNode]; exact counterNode_mono s.c cs
+      | ctx cs => intro s; rw [writeNode]; exact Frz.refl _
+      | counter cs => intro s; rw [writeNode]; exact Frz.refl _
       | condOK k child =>
         intro s; rw [writeNode]
         split
-        · exact CMono.refl _
-        · have h := evalCondOK_mono s.c k
-          generalize evalCondOK s.c k = ec at h
+        · exact Frz.refl _
+        · have h : Frz s.w s.w := Frz.refl _
+          generalize evalCondOK s.c k = ec
           obtain ⟨c1, o⟩ := ec
           cases o with
           | stop e => exact h
@@ -253,8 +271,8 @@ theorem interp_mono (reg : Registry) : ∀ f : Nat,
             | some n => exact h.trans (ihN n { s with c := c1 })
       | cond cd child =>
         intro s; rw [writeNode]
-        have h := evalCond_mono s.c cd
-        generalize evalCond s.c cd = ec at h
+        have h : Frz s.w s.w := Frz.refl _
+        generalize evalCond s.c cd = ec
         obtain ⟨c1, o⟩ := ec
         cases o with
         | stop e => exact h
@@ -285,42 +303,40 @@ theorem interp_mono (reg : Registry) : ∀ f : Nat,
           rw [Option.map_eq_some_iff] at hre
           obtain ⟨a, _, rfl⟩ := hre
           exact elseRun_mono _ (elseSeq_mono _ (by intro r hr; simp only [List.mem_map] at hr; obtain ⟨n, _, rfl⟩ := hr; exact ihN n)) _
-      | brk d => intro s; rw [writeNode]; exact CMono.of_eq rfl rfl rfl
-      | lbrk d => intro s; rw [writeNode]; exact CMono.of_eq rfl rfl rfl
-      | cont => intro s; rw [writeNode]; exact CMono.refl _
+      | brk d => intro s; rw [writeNode]; exact Frz.refl _
+      | lbrk d => intro s; rw [writeNode]; exact Frz.refl _
+      | cont => intro s; rw [writeNode]; exact Frz.refl _
       | switch arg child => intro s; rw [writeNode]; exact ihW arg child child s
       | incl names =>
         intro s; rw [writeNode]
         cases reg.getBKeys names with
-        | none => exact CMono.refl _
+        | none => exact Frz.refl _
         | some nodes =>
           simp only
           split
-          · exact CMono.refl _
-          · have h : CMono s.c (writeTree reg f nodes { c := { s.c with incD := s.c.incD + 1 }, w := {} }).st.c :=
-              (CMono.of_eq rfl rfl rfl : CMono s.c ({ c := { s.c with incD := s.c.incD + 1 }, w := {} } : St).c).trans (ihT nodes _)
-            generalize writeTree reg f nodes { c := { s.c with incD := s.c.incD + 1 }, w := {} } = r at h
+          · exact Frz.refl _
+          · generalize writeTree reg f nodes { c := { s.c with incD := s.c.incD + 1 }, w := {} } = r
             unfold inclFinish
             cases r.err with
-            | some e => exact h.trans (CMono.of_eq rfl rfl rfl)
+            | some e => exact Frz.refl _
             | none =>
               simp only
-              exact (h.trans (CMono.of_eq rfl rfl rfl)).trans (write_mono _ _)
-      | exit => intro s; rw [writeNode]; exact CMono.refl _
-      | jsonQ => intro s; rw [writeNode]; exact CMono.of_eq rfl rfl rfl
-      | endJsonQ => intro s; rw [writeNode]; exact CMono.of_eq rfl rfl rfl
-      | htmlE => intro s; rw [writeNode]; exact CMono.of_eq rfl rfl rfl
-      | endHtmlE => intro s; rw [writeNode]; exact CMono.of_eq rfl rfl rfl
-      | urlEnc => intro s; rw [writeNode]; exact CMono.of_eq rfl rfl rfl
-      | endUrlEnc => intro s; rw [writeNode]; exact CMono.of_eq rfl rfl rfl
-      | div => intro s; rw [writeNode]; exact CMono.refl _
-      | unknown => intro s; rw [writeNode]; exact CMono.refl _
+              exact write_mono r.st.w.out ({ s with c := { r.st.c with incD := r.st.c.incD - 1 } } : St)
+      | exit => intro s; rw [writeNode]; exact Frz.refl _
+      | jsonQ => intro s; rw [writeNode]; exact Frz.refl _
+      | endJsonQ => intro s; rw [writeNode]; exact Frz.refl _
+      | htmlE => intro s; rw [writeNode]; exact Frz.refl _
+      | endHtmlE => intro s; rw [writeNode]; exact Frz.refl _
+      | urlEnc => intro s; rw [writeNode]; exact Frz.refl _
+      | endUrlEnc => intro s; rw [writeNode]; exact Frz.refl _
+      | div => intro s; rw [writeNode]; exact Frz.refl _
+      | unknown => intro s; rw [writeNode]; exact Frz.refl _
     · intro arg all cs
       cases cs with
       | nil =>
         intro s; rw [switchNode]
         cases all.find? Node.isDefault with
-        | none => exact CMono.refl _
+        | none => exact Frz.refl _
         | some d => exact ihN d s
       | cons ch rest =>
         intro s; rw [switchNode]
@@ -328,15 +344,15 @@ theorem interp_mono (reg : Registry) : ∀ f : Nat,
         | none => exact ihW arg all rest s
         | some kk =>
           simp only
-          have h := evalCase_mono s.c arg kk
-          generalize evalCase s.c arg kk = ec at h
+          have h : Frz s.w s.w := Frz.refl _
+          generalize evalCase s.c arg kk = ec
           obtain ⟨c1, o⟩ := ec
           cases o with
           | stop e => exact h
           | branch r pending =>
             simp only
             cases r with
-            | true => simp only [if_true]; exact h.trans (ihN ch _)
-            | false => simp only [Bool.false_eq_true, if_false]; exact h.trans (ihW arg all rest _)
+            | true => simp only [if_true]; exact ihN ch { s with c := c1 }
+            | false => simp only [Bool.false_eq_true, if_false]; exact ihW arg all rest { s with c := c1 }
 
-end DyntplV
+end DyntplV.Frozen
